@@ -312,6 +312,12 @@ def check(ctx):
     c03.check(sub)
     ctx.obligations.extend(o for o in sub.obligations if o.rule.split(".", 1)[1].split(".")[0] in ("keyfile", "encrypt"))
 
+    # binary values: what BytesField writes is text on every path (the tree is plain data) and its codec pairs invert (shared with C05)
+    from . import c05
+    sub5 = type(ctx)(ctx.pid, ctx.an, ctx.tier)
+    c05.check_bytes_codec(sub5)
+    ctx.obligations.extend(o for o in sub5.obligations if o.rule.split(".", 1)[1].startswith("codec.bytes"))
+
     # ---------------------------------------------------------------- C02.4 to_tree contents
     g = an.cfg(to_tree)
     reach = reachable_from_entry(an, to_tree)
